@@ -108,7 +108,9 @@ def build(desc):
             elif k == "switch":
                 st = SwitchPhase(s["target"], **kw)
             elif k == "condassign":
-                st = Assign("<cond>" + s["flag"], (), Comparison(var("<t>"), "<", 3), **kw)
+                # ("off": the assignment is disabled with a constant-false guard; it is an assignment all the same)
+                st = Assign("<cond>" + s["flag"], (), Comparison(var("<t>"), "<", 3),
+                            condition=False if s.get("off") else True, **kw)
             elif k == "yield":
                 st = YieldState(expression=var("<t>"), component_id="c", time=var("<t>"),
                                 time_id="fin", **kw)
@@ -454,7 +456,7 @@ def rand_desc(rng):
         prev = []
         for i in range(nw):
             phases[p]["stmts"].append({"id": f"{p}cw{i}", "kind": "condassign", "flag": "g",
-                                       "deps": list(prev)})
+                                       "deps": list(prev), "off": rng.random() < 0.35})
             prev = [f"{p}cw{i}"]
         if nph > 1 and rng.random() < 0.5:
             q = [x for x in pn if x != p][0]
